@@ -153,6 +153,8 @@ class ConcreteCtx:
 
     mode = "concrete"
 
+    tight = False  # counterexample replay: compare relative to the magnitude of the values (small-scale inputs)
+
     def __init__(self, model: dict, params: dict):
         self.model = model
         self.params = params
@@ -204,7 +206,16 @@ class ConcreteCtx:
         return ok
 
     def prove_eq(self, name, a, b, detail="", tol=None):
-        ok = E._concrete_close(a, b, rtol=self.params.get("_rtol", 2e-3), atol=tol if tol is not None else self.params.get("_atol", 2e-3))
+        rtol = self.params.get("_rtol", 2e-3)
+        atol = tol if tol is not None else self.params.get("_atol", 2e-3)
+        if self.tight and tol is None:
+            # replay of a solver counterexample: the violation has to show above float32 storage noise only
+            rtol = min(rtol, 1e-4)
+            try:
+                atol = min(atol, rtol * max(abs(float(a)), abs(float(b))))
+            except (TypeError, ValueError):
+                pass
+        ok = E._concrete_close(a, b, rtol=rtol, atol=atol)
         self.obligations.append(E.Obligation(name, "discharged" if ok else "violated", detail or f"{a!r} != {b!r}"))
         return ok
 
@@ -239,7 +250,7 @@ class ConcreteCtx:
         return True
 
 
-def run_concrete(fn, params: dict, model: dict):
+def run_concrete(fn, params: dict, model: dict, tight: bool = False):
     """Returns (status, ctx, exception)."""
     from . import symnp
 
@@ -247,6 +258,7 @@ def run_concrete(fn, params: dict, model: dict):
     prev = E._CTX
     E._CTX = None
     c = ConcreteCtx(model, params)
+    c.tight = tight
     try:
         with _np.errstate(all="ignore"):
             fn(c, **params)
